@@ -144,6 +144,21 @@ class Interp:
         if len(pl) == 3 and pl[0] == 1 and pl[1] == '*':
             f = self.self_field_info(pl[2][2])
             return f['ty'] if f else None
+        if len(pl) > 3 and pl[0] == 1 and pl[1] == '*' and all(isinstance(e, list) and e[0] == 'f' for e in pl[2:]):
+            # nested field of a crate-local struct field: walk the ADT table
+            f = self.self_field_info(pl[2][2])
+            for e in pl[3:]:
+                if not f or not f.get('adt'):
+                    return None
+                a = self.facts.adts.get(f['adt'])
+                if not a or a['kind'] != 'struct' or f['ty'].startswith(('&', '*')):
+                    return None
+                nxt = None
+                for g in a['variants'][0]['fields']:
+                    if g['name'] == e[2]:
+                        nxt = g
+                f = nxt
+            return f['ty'] if f else None
         return None
 
     # ---- places
